@@ -407,10 +407,13 @@ func (p *Program) verifyFunction(key string) *FuncResult {
 		if fc != nil && len(g.rets) > 0 {
 			for _, cl := range fc.Ensures {
 				var conj []string
+				var posts []string
+				var envs []*env
 				bad := false
 				for _, r := range g.rets {
 					e := g.newEnv(r.st, g.entry)
 					e.results = r.vals
+					e.atBlock, e.atEnd = r.blk, true
 					sig := fn.Signature.Results()
 					for i := 0; i < sig.Len() && i < len(r.vals); i++ {
 						if nm := sig.At(i).Name(); nm != "" && nm != "_" {
@@ -429,11 +432,54 @@ func (p *Program) verifyFunction(key string) *FuncResult {
 						break
 					}
 					conj = append(conj, implies(r.reach, t))
+					posts = append(posts, t)
+					envs = append(envs, e)
 				}
 				if bad {
 					continue
 				}
-				g.obligeClauseNoAssume("ensures", fmt.Sprintf("%s.ensures.%s", key, cl.Label), cl, "true", and(conj...))
+				name := fmt.Sprintf("%s.ensures.%s", key, cl.Label)
+				// known findings whose witness predicate speaks about the return state (whenpost)
+				var postSplits []FindingSplit
+				for _, f := range fc.Findings {
+					if f.Post && (f.Clause == cl.Label || matchGlob(f.Clause, name)) {
+						postSplits = append(postSplits, f)
+					}
+				}
+				if len(postSplits) == 0 {
+					g.obligeClauseNoAssume("ensures", name, cl, "true", and(conj...))
+					continue
+				}
+				notW := make([][]string, len(g.rets))
+				okSplit := true
+				for _, f := range postSplits {
+					var wconj []string
+					for ri, r := range g.rets {
+						w, err := g.elabBool(f.When, envs[ri])
+						if err != nil {
+							g.contractError(cl, fmt.Errorf("finding %s: %v", f.ID, err))
+							okSplit = false
+							break
+						}
+						notW[ri] = append(notW[ri], not(w))
+						wconj = append(wconj, implies(and(r.reach, w), posts[ri]))
+					}
+					if !okSplit {
+						break
+					}
+					g.obls = append(g.obls, &Obligation{Name: name + "[" + f.ID + "]", Kind: "ensures", Fn: key, Desc: cl.Src + " WHENPOST " + f.Src,
+						NAssume: len(ctx.assumes), Reach: "true", Cond: and(wconj...), ctx: ctx, ExpectSat: true, Finding: f.ID,
+						Pos: fmt.Sprintf("%s:%d", shortFile(cl.File), cl.Line)})
+				}
+				if !okSplit {
+					continue
+				}
+				var rest []string
+				for ri, r := range g.rets {
+					rest = append(rest, implies(and(append([]string{r.reach}, notW[ri]...)...), posts[ri]))
+				}
+				g.obls = append(g.obls, &Obligation{Name: name, Kind: "ensures", Fn: key, Desc: cl.Src, NAssume: len(ctx.assumes), Reach: "true",
+					Cond: and(rest...), ctx: ctx, Pos: fmt.Sprintf("%s:%d", shortFile(cl.File), cl.Line)})
 			}
 			// frame: without a modifies clause the function must leave pre-existing heap untouched
 			if !fc.HasModifies && !fc.Extern {
